@@ -907,6 +907,44 @@ def check_position_table(ck):
     return len(reqs)
 
 
+def check_extra_positions(ck):
+    """positions OUTSIDE Class/Syntax.v (the Python templates of c14.EXTRA_POSITIONS that can hold any expression): an instantiation
+    Dep() of a same-file class / of a class imported with `from m import Imp`, bare and hidden in an argument of another call, must be
+    counted.  The oracle is Python's own parser: the classes K instantiates are the ast.Call nodes under K whose callee is such a name."""
+    import ast
+    import c14
+    reqs, meta = [], []
+    for pname, group, kinds, tpl in c14.EXTRA_POSITIONS:
+        if kinds != "e":
+            continue
+        for form, head, name in (("local", ["class Dep:", "    pass", "", "class Other:", "    pass", ""], "Dep"),
+                                 ("from-import", ["from m import Imp, Unused", ""], "Imp")):
+            for shape, expr in (("bare", "%s()" % name), ("argument", "fn(k=other.g(%s()))" % name)):
+                lines = head + ["class K:", "    def a(self):"] + ["        " + l.replace("$E", expr) for l in tpl]
+                src = "\n".join(lines) + "\n"
+                cls = [n for n in ast.walk(ast.parse(src)) if isinstance(n, ast.ClassDef) and n.name == "K"][0]
+                want = sorted({n.func.id for n in ast.walk(cls) if isinstance(n, ast.Call) and isinstance(n.func, ast.Name) and n.func.id in ("Dep", "Imp")})
+                reqs.append({"op": "cbo", "src": src})
+                meta.append((pname, group, form, shape, src, want))
+    n_bad = 0
+    for (pname, group, form, shape, src, want), r in zip(meta, lib.driver(reqs)):
+        ks = [x for x in r.get("classes", []) if x["name"] == "K"] if "error" not in r else []
+        got = (ks[0]["cbo"], ks[0]["deps"]) if len(ks) == 1 else None
+        if got == (len(want), want):
+            continue
+        tags = {"class": "position-outside-syntax", "position": pname, "position_group": group, "form": form, "shape": shape,
+                "only_that_instantiation_missing": got == (0, [])}
+        e = ck.match_known(tags)
+        if e:
+            ck.known_finding(e)
+            continue
+        n_bad += 1
+        if n_bad <= 6:
+            ck.violation("CBO %s; Python's syntax tree of class K has the instantiation(s) %s (position %s, %s, %s)" % (got, want, pname, form, shape),
+                         {"kind": "extra-position", "tags": tags, "source": src, "impl": ks[0] if ks else r, "spec": {"cbo": len(want), "deps": want}})
+    return len(reqs)
+
+
 def e2e(ck, cases, impl):
     """the same classes through `pyscn analyze --json --select cbo,lcom` with [cbo] show_zeros = true"""
     d = lib.fresh_dir("c13_e2e")
@@ -985,6 +1023,12 @@ def main(tier):
         n_table = check_position_table(ck)
     except Exception as e:
         ck.broken_ties.append("position table check failed: %s" % str(e)[-600:])
+
+    n_extra = 0
+    try:
+        n_extra = check_extra_positions(ck)
+    except Exception as e:
+        ck.broken_ties.append("extra position check failed: %s" % str(e)[-600:])
 
     cases = position_matrix() + nested_matrix() + annotation_matrix() + threshold_cases() + builtin_core_cases() + builtin_inc_cases()
     # project classes named like a built-in (names from the regenerated tables of cbo.go)
@@ -1140,13 +1184,14 @@ def main(tier):
 
     ck.samples = [{"source": reqs[i]["src"], "impl": results[i], "tags": cases[i]["tags"]} for i in (3, len(position_matrix()) + 5, len(cases) - 3) if results[i]]
     ck.cov.update({
-        "evaluations": len(cases) + n_table + n_e2e + n_gen + n_mf,
+        "evaluations": len(cases) + n_table + n_extra + n_e2e + n_gen + n_mf,
         "distinct_nontrivial": len(distinct),
         "rule": "position x import-form matrix (one instantiation per class), nested matrix (an instantiation hidden in the argument list of another call: "
                 "host kind x argument slot x statement context, full cross for assignment-like contexts, depth up to 4, one-more-argument pairs), base/annotation form x shape x place matrix, "
                 "project classes NAMED like a built-in (every name of cbo.go's regenerated built-in type table and some of its function table: written through a module - import m / import m as a / unimported qualifier - as base, in an annotation (place and shape rotate) and instantiated (position rotates over all expression positions, and hidden in an argument slot): counted under the dotted name; written bare after from-import / import-as / a same-file class of that name: the built-in by name; include_builtins false and true), "
                 "threshold lattice (0..10 dependencies x 10 threshold pairs), random classes with 5 metamorphic variants each "
                 "(repeat, reorder, rename self, add unrelated, add one coupled class - also one living in another module and named like a built-in type), built-ins included (every position x built-in type; built-in function / local class in assignment-like positions), "
+                "positions outside Class/Syntax.v as Python templates (c14.EXTRA_POSITIONS that hold any expression: f-string in an implicit concatenation, yield from, except T as e, every `if` of a comprehension, typed defaults of a nested def, bases / keywords of a nested class, match guard, slices, await ...) x (local class, from-import) x (bare, hidden in an argument), decided against the ast.Call nodes of Python's own syntax tree, "
                 "subscripted forms (class K(Base[T]) x import form x arity, x: mod.Container[T] x place x import form), parser position table (find-path), "
                 "multi-file runs (projects of 2-4 files analysed in ONE `pyscn analyze --select cbo` run: a file imports a name by from-import / import-as / module import / module import-as, "
                 "another file uses it WITHOUT importing it - there a plain function, a local class, undefined, or imported too - by instantiation at a rotating position / method call on the name / both; "
@@ -1154,7 +1199,7 @@ def main(tier):
                 "and against the run over the file alone), "
                 "CLI runs (default, [cbo] thresholds, include_builtins = true, include_imports = false, [analysis] exclude_patterns matching class names); "
                 "distinct = distinct source texts",
-        "input_distribution": dict(dist, position_table_probes=n_table, metamorphic_relations=n_meta, e2e_classes=n_e2e, subscript_forms=n_gen,
+        "input_distribution": dict(dist, position_table_probes=n_table, python_template_positions=n_extra, metamorphic_relations=n_meta, e2e_classes=n_e2e, subscript_forms=n_gen,
                                    multifile_projects=len(projs), multifile_classes_checked=n_mf),
         "known_finding_cases": n_known,
         "model_mismatches": n_tie,
